@@ -104,6 +104,9 @@ func (c *panicClient) PreAssign(e *Engine, st *State, lhs, rhs []ast.Expr, _ ast
 		ok2 := e.NonNil(st, ix.X)
 		e.Site("C12/panic", key, ix, ok2, "the map is known to be allocated (make / literal) on every path")
 		if !ok2 {
+			if c.failed != nil {
+				c.failed[e.CurFunc()] = true // decided again where the helper is called (the map may be the caller's)
+			}
 			e.Site("C12/panic", key, ix, false, "a store into a map that is not known to be non-nil on this path: assignment to an entry of a nil map panics")
 		}
 	}
@@ -826,6 +829,7 @@ func ruleC12Support(p *Program, r *Run) {
 // postClient: a function (list, ...) -> (list, error) returns a longer list on success.
 type postClient struct {
 	BaseClient
+	InlinePure // predicates and local closures (advance := func() error { ...; dst = append(dst, sub) })
 	growers map[*types.Func]*ast.FuncDecl
 	list    types.Object
 	returns int
